@@ -147,13 +147,112 @@ class Poly:
             out.append(('%s*' % v if v != 1 or not k else '') + '*'.join(('%s^%d' % (n, e) if e > 1 else str(n)) for n, e in k))
         return ' + '.join(out) + (' + ...(%d)' % len(self.t) if len(self.t) > 6 else '')
 
+# ---------------------------------------------------------------------------------------
+# Random interpretation (Gulwani & Necula, POPL 2003): the same abstract interpreter can carry,
+# instead of an expanded rational function, its image under a random evaluation homomorphism
+# into GF(p) (every input symbol and every uninterpreted atom is mapped to a random field
+# element, atoms consistently by the images of their arguments; boolean atoms to 0/1, or to the
+# value a scenario oracle fixes).  Ring operations commute with the homomorphism, so an identity
+# that holds as polynomials holds in the image ALWAYS (no false alarm, whatever the code shape
+# or size), and one that does not hold is caught with probability >= 1 - deg/p per trial.  No
+# polynomial is expanded, so whole pipeline steps cost seconds.  Nothing of brax/jax is executed:
+# the "inputs" are not physical states but the random point of the homomorphism.
+PREDICATE_KINDS = ('bool', 'isnan', 'isinf', 'any', 'all', 'allclose')
+FIELD = {'on': False, 'p': (1 << 61) - 1, 'vals': {}, 'rng': None, 'decide': None, 'bool_default': None}
+_ONE = None   # set below (Poly.const(1))
+
+
+def field_mode(seed=0, decide=None, bool_default=None):
+    """Switch the value domain to GF(p) images.  bool_default fixes the image of every boolean atom
+    the scenario oracle leaves undecided (1 = every undecided gate open, 0 = closed, None = random)."""
+    import random
+    FIELD['on'] = True
+    FIELD['bool_default'] = bool_default
+    FIELD['vals'] = {}
+    FIELD['rng'] = random.Random(0xB8A5 ^ (seed * 2654435761 & 0xFFFFFFFF))
+    FIELD['decide'] = decide
+
+
+def exact_mode():
+    FIELD['on'] = False
+    FIELD['vals'] = {}
+    FIELD['decide'] = None
+
+
+def _finv(a):
+    p = FIELD['p']
+    a %= p
+    if a == 0:
+        raise OutOfFragment('division by a zero image in GF(p) (degenerate random point or 0/0 in the code)')
+    return pow(a, p - 2, p)
+
+
+def _fval_name(name):
+    v = FIELD['vals'].get(name)
+    if v is None:
+        d = FIELD['decide'](name) if FIELD['decide'] is not None and isinstance(name, Atom) else None
+        if d is not None:
+            v = int(d)
+        elif isinstance(name, Atom) and name.kind in PREDICATE_KINDS:
+            v = FIELD['rng'].getrandbits(1) if FIELD['bool_default'] is None else FIELD['bool_default']
+        else:
+            v = FIELD['rng'].randrange(2, FIELD['p'] - 1)
+        FIELD['vals'][name] = v
+    return v
+
+
+def _fval_frac(c):
+    p = FIELD['p']
+    c = Fraction(c)
+    return (c.numerator % p) * _finv(c.denominator) % p
+
+
+def _peval(poly):
+    p = FIELD['p']
+    tot = 0
+    for mono, c in poly.t.items():
+        t = _fval_frac(c)
+        for name, e in mono:
+            t = t * pow(_fval_name(name), e, p) % p
+        tot = (tot + t) % p
+    return tot
+
+
 class Rat:
-    """rational function num/den; den kept un-reduced; equality by cross-multiplication"""
-    __slots__ = ('n', 'd')
-    pass
+    """Value of the AVN domain.  Exact mode: rational function num/den (den kept un-reduced,
+    equality by cross-multiplication).  Field mode: image in GF(p) (`fv`) plus the exact value
+    `cv` when the value is a literal constant (needed for shapes, indices, static branches)."""
+    __slots__ = ('n', 'd', 'fv', 'cv')
     def __init__(self, n, d=None):
-        self.n = n
-        self.d = d if d is not None else Poly.const(1)
+        if FIELD['on']:
+            den = d if d is not None else None
+            self.cv = None
+            if n.is_const() and (den is None or den.is_const()):
+                dv = den.constval() if den is not None else 1
+                if dv != 0:
+                    self.cv = n.constval() / dv
+            fn_ = _peval(n)
+            if den is not None:
+                fn_ = fn_ * _finv(_peval(den)) % FIELD['p']
+            self._set_f(fn_)
+        else:
+            self.n = n
+            self.d = d if d is not None else Poly.const(1)
+            self.fv = None
+            self.cv = None
+    def _set_f(self, v):
+        self.fv = v % FIELD['p']
+        if self.fv == 0 and self.cv is None:
+            self.cv = Fraction(0)     # an identically vanishing value is the constant 0 (as in exact mode)
+        # compatibility for zero tests written against the exact representation
+        self.n = Poly() if self.fv == 0 else _ONE
+        self.d = _ONE
+    @staticmethod
+    def _f(v, cv=None):
+        r = Rat.__new__(Rat)
+        r.cv = cv
+        r._set_f(v)
+        return r
     @staticmethod
     def lift(o):
         if isinstance(o, Rat):
@@ -179,11 +278,15 @@ class Rat:
         o = self._bin(o)
         if o is None:
             return NotImplemented
+        if self.fv is not None:
+            return Rat._f(self.fv + o.fv, self.cv + o.cv if self.cv is not None and o.cv is not None else None)
         if self.d == o.d:
             return Rat(self.n + o.n, self.d)
         return Rat(self.n * o.d + o.n * self.d, self.d * o.d)
     __radd__ = __add__
     def __neg__(self):
+        if self.fv is not None:
+            return Rat._f(-self.fv, -self.cv if self.cv is not None else None)
         return Rat(-self.n, self.d)
     def __sub__(self, o):
         o = self._bin(o)
@@ -196,12 +299,21 @@ class Rat:
         o = self._bin(o)
         if o is None:
             return NotImplemented
+        if self.fv is not None:
+            return Rat._f(self.fv * o.fv, self.cv * o.cv if self.cv is not None and o.cv is not None else None)
         return Rat(self.n * o.n, self.d * o.d)
     __rmul__ = __mul__
     def __truediv__(self, o):
         o = self._bin(o)
         if o is None:
             return NotImplemented
+        if self.fv is not None:
+            if o.fv == 0:
+                if self.fv == 0 or o.cv is None:
+                    raise OutOfFragment('division by a zero image in GF(p)')
+                return Rat.lift(float('inf'))
+            return Rat._f(self.fv * _finv(o.fv),
+                          self.cv / o.cv if self.cv is not None and o.cv not in (None, 0) else None)
         if OPAQUE_DIV[0] and not o.is_const():
             return self * uf('inv', o)
         return Rat(self.n * o.d, self.d * o.n)
@@ -211,25 +323,43 @@ class Rat:
         if isinstance(k, Rat) and k.is_const():
             k = k.constval()
         if isinstance(k, (int, Fraction)) and k == int(k) and int(k) >= 0:
+            if self.fv is not None:
+                return Rat._f(pow(self.fv, int(k), FIELD['p']), self.cv ** int(k) if self.cv is not None else None)
             r = Rat(Poly.const(1))
             for _ in range(int(k)):
                 r = r * self
             return r
         return uf('pow', self, k)
     def is_const(self):
+        if self.fv is not None:
+            return self.cv is not None
         return self.n.is_const() and self.d.is_const()
     def constval(self):
+        if self.fv is not None:
+            return self.cv
         return self.n.constval() / self.d.constval()
+    def is_zero(self):
+        if self.fv is not None:
+            return self.fv == 0
+        return self.n == Poly()
     def same(self, o):
         o = Rat.lift(o)
+        if self.fv is not None:
+            return self.fv == o.fv
         return self.n * o.d == o.n * self.d
     def key(self):
+        if self.fv is not None:
+            if self.cv is not None:
+                return ('p', Poly.const(self.cv).key())
+            return ('F', self.fv)
         # canonical-ish key: if denominator constant, fold it
         if self.d.is_const():
             c = self.d.constval()
             return ('p', Poly({k: v / c for k, v in self.n.t.items()}).key())
         return ('r', self.n.key(), self.d.key())
     def __repr__(self):
+        if self.fv is not None:
+            return ('%s' % self.cv) if self.cv is not None else 'F(%d)' % self.fv
         return repr(self.n) if self.d == Poly.const(1) else '(%r)/(%r)' % (self.n, self.d)
     # comparisons produce boolean atoms
     def _cmp(self, op, o):
@@ -250,6 +380,8 @@ class Rat:
     def __le__(self, o): return self._cmp('<=', o)
     def __gt__(self, o): return self._cmp('>', o)
     def __ge__(self, o): return self._cmp('>=', o)
+
+_ONE = Poly.const(1)
 
 def exact(x):
     """Literal -> exact rational (decimal literals mean their decimal value)."""
@@ -294,6 +426,8 @@ def reset_atoms():
     _ORD.clear()
 
 def _noncanon(a):
+    if FIELD['on']:
+        return False
     if isinstance(a, Rat):
         return not a.d.is_const()
     if isinstance(a, np.ndarray) and a.dtype == object:
@@ -668,6 +802,8 @@ class Interp:
     # normal form (same value -> same atom), so multiplicative gates and equalities between
     # identically computed values survive while sizes stay bounded.
     def widen(self, v):
+        if FIELD['on']:
+            return v
         if isinstance(v, Rat):
             return self._widen_rat(v)
         if isinstance(v, np.ndarray) and v.dtype == object:
